@@ -18,12 +18,18 @@ Theorem go_sanitizeIndexes_eq ss s e :
 Proof.
   intros Hl Hs He. unfold int_ok in Hs, He. pose proof pow62_63 as P.
   assert (H63 : 0 < 2 ^ 62) by (apply Z.pow_pos_nonneg; lia).
-  unfold go_SortedSet_sanitizeIndexes, z_sanitize, iadd.
-  rewrite (wrapS64_id (SortedSet_length ss)) by (unfold int_ok; lia).
-  destruct (s <? 0) eqn:Es; destruct (e <? 0) eqn:Ee; cbn [gbind];
-    try rewrite (wrapS64_id (SortedSet_length ss + s)) by (unfold int_ok; lia);
-    try rewrite (wrapS64_id (SortedSet_length ss + e)) by (unfold int_ok; lia);
-    repeat (rewrite wrapS64_id by (unfold int_ok; lia));
-    repeat match goal with |- context [if ?c then _ else _] => destruct c eqn:? end;
-    cbn [gbind]; try reflexivity; lia.
+  unfold go_SortedSet_sanitizeIndexes, z_sanitize, iadd. cbv zeta.
+  (* symbolic execution that does not depend on the shape of the code: drop a
+     wrap whose argument is in range (wherever it is), else case-split on an
+     atomic test of the first [if] (code or model) and let [lia] discard the
+     impossible branches; the results are compared by [lia] *)
+  repeat first
+    [ match goal with
+      | |- context [wrapS 64 ?z] => rewrite (wrapS64_id z) by (unfold int_ok; lia)
+      end
+    | go_case; try (exfalso; lia) ].
+  all: repeat match goal with
+              | |- GOk _ = GOk _ => f_equal
+              | |- (_, _) = (_, _) => f_equal
+              end; first [ reflexivity | lia ].
 Qed.
